@@ -999,3 +999,10 @@ M("C05-property-keyed-by-simple-name", "C05", "src/interrogate/interrogateBuilde
 M("C05-benign-make-seq-key-scoped", "C05", "src/interrogate/interrogateBuilder.cxx",
   "  string make_seq_name = make_seq->get_local_name(&parser);", "  string make_seq_name = make_seq->get_fully_scoped_name();",
   benign=True)
+
+M("C07-binary-literal-first-digit-twice", "C07", "src/cppparser/cppPreprocessor.cxx",
+  "    get();\n    c = peek();\n    string bin;\n", "    get();\n    c = peek();\n    string bin(1, (char)c);\n",
+  expect="R07.8|get_number|bin|seed-is-consumed")
+M("C07-benign-binary-literal-seed-consumed", "C07", "src/cppparser/cppPreprocessor.cxx",
+  "    get();\n    c = peek();\n    string bin;\n", "    get();\n    c = peek();\n    string bin = \"\";\n",
+  benign=True)
